@@ -46,6 +46,15 @@ def thorough_common(ctx):
         out["coverage"]["coqchk"] = res
     return out
 
+def thorough_extra(ctx):
+    out = thorough_common(ctx)
+    if out.get("problem"): return out
+    rep = coq_replay(ctx)
+    if rep.get("problem"):
+        out["problem"] = rep["problem"]
+    out["coverage"].update(rep.get("coverage", {}))
+    return out
+
 PROPS = {}
 
 PROPS["C14"] = dict(
@@ -201,11 +210,11 @@ PROPS["C01"] = dict(
 PROPS["C02"] = dict(
     claim=dict(
         text="Machine-checked proof (Coq 8.16) over the grammar-level pattern AST (literals, {name}, {name:regex}, global variables, nested optional tails) and the backtracking matcher in Go's leftmost-first order: for every pattern whose variable regexes have no capture group and every path the compiled expression matches, the captures form a valid decomposition of the path - literals verbatim, every variable of a present part a word of its regex, variables of absent optional parts empty - and capture i is the value of variable i (C02_captures, via capture-threaded soundness of the matcher); handlers receive exactly the variable names bound to those values (C02_params); a pattern matches exactly the decomposable paths (C02_matches_iff); static hits carry nil parameters (C02_static); the cache returns the same parameters as the uncached lookup (C02_cached). Tie to the code: for the route the implementation selected (Router.Match and Context.Params inside handlers, cache on/off, repeated requests) the parameters are compared with pat_params of that route's pattern.",
-        note="Trusted: Coq kernel, extraction, driver, harness; Go's regexp is modelled by the backtracking matcher on the parser subset. Uniqueness of the decomposition for slash-free variables is not proved separately (the judge compares with the leftmost-first captures, which is what Go returns). Distinct variable names are assumed for C02_params.",
+        note="Trusted: Coq kernel, extraction, driver, harness; Go's regexp is modelled by the backtracking matcher on the parser subset. Uniqueness of the decomposition is proved for segment-shaped item lists (every variable slash-free and delimited by the end or a literal starting with '/': C02_unique); for other patterns the judge compares with the leftmost-first captures, which is what Go returns. Distinct variable names are assumed for C02_params.",
         technique="Coq proof: capture soundness of a backtracking regex matcher lifted to route patterns with optional tails; assume-guarantee differential check against the implementation"),
     n=dict(quick=1500, thorough=40000),
     consts=["global-vars", "any-match"],
-    theorems=["C02_captures", "C02_params", "C02_matches_iff", "C02_static", "C02_cached"],
+    theorems=["C02_captures", "C02_params", "C02_unique", "C02_matches_iff", "C02_static", "C02_cached"],
     rule="case = table of 1..6 routes as for C01, cache on (capacity 0..4) in half of the cases; probes through Router.Match and ServeHTTP (Context.Params inside "
          "the handler), a third of them repeated so that cache hits occur. For the route the implementation selected, its parameters are compared with the "
          "captures of that route's pattern. Non-trivial = distinct table with >= 2 routes and >= 2 hits.",
@@ -405,3 +414,105 @@ PROPS["C03"] = dict(
     trusted_base=_RP_TRUSTED + ["NOT modelled: the Go memory model below the model's action granularity, sync.Pool's and sync.RWMutex's own correctness, completeness of the footprint annotations; the race detector run is exploration, not proof"],
     assumptions=["registration is finished before the first request"],
 )
+
+
+# ---------------------------------------------------------------- in-Coq replay (thorough tier): cross-check of the extraction path
+def _sx(s):
+    pos = 0
+    def item():
+        nonlocal pos
+        while s[pos] in " \t": pos += 1
+        if s[pos] == "(":
+            pos += 1; xs = []
+            while True:
+                while s[pos] in " \t": pos += 1
+                if s[pos] == ")":
+                    pos += 1; return xs
+                xs.append(item())
+        st = pos
+        while pos < len(s) and s[pos] not in " ()": pos += 1
+        return s[st:pos]
+    return item()
+
+def _cstr(a):
+    body = a[1:]
+    if not body: return "([] : str)"
+    return "([" + "; ".join(str(int(h, 16)) for h in body.split(".")) + "]%N : str)"
+def _cbool(a): return "true" if a == "t" else "false"
+def _clist(xs, ty=None): return "[" + "; ".join(xs) + "]" if xs else ("(@nil %s)" % ty if ty else "[]")
+def _cz(a): return "(%s)%%Z" % a
+
+def _replay_c11(case, model):
+    c = _sx(case); m = _sx(model)
+    inp = "c11_out %s %s %s %s %s %s" % (_cbool(c[1]), _cbool(c[2]), _clist([_cstr(g) for g in c[3]], "str"), _cstr(c[4]), _cstr(c[5]), _cstr(c[6]))
+    if m == "panic" or m == ["panic"]: exp = "None"
+    else: exp = "(Some (%s, %s, %s))" % (_cstr(m[0][1]), _cbool(m[1][1]), _cbool(m[2][1]))
+    return "c11_eqb (%s) %s" % (inp, exp)
+
+def _replay_c14(case, model):
+    c = _sx(case)
+    if c[0] != "c14": return None
+    def op(o):
+        if o[0] == "s": return "(OSet %s %s%%N)" % (_cstr(o[1]), o[2])
+        return {"g": "(OGet %s)", "h": "(OHas %s)", "d": "(ODel %s)"}[o[0]] % _cstr(o[1]) if o[0] != "l" else "OLen"
+    def res(r):
+        if r == "u": return "RUnit"
+        if r == "none": return "(RVal None)"
+        if r in ("t", "f"): return "(RBool %s)" % _cbool(r)
+        if r[0] == "v": return "(RVal (Some %s%%N))" % r[1]
+        return "(RNat %s)" % r[1]
+    m = _sx(model)
+    exp = _clist(["(%s, %s)" % (res(x[0]), _clist([_cstr(k) for k in x[1]], "str")) for x in m], "(cres N * list str)")
+    return "c14_eqb (c14_out %s %s) %s" % (c[1], _clist([op(o) for o in c[2]], "(cop N)"), exp)
+
+def _replay_c08(case, model):
+    c = _sx(case); m = _sx(model)
+    def wop(o):
+        k = o[0]
+        if k == "st": return "(WSetStatus %s)" % _cz(o[1])
+        if k == "hd": return "(WSetHeader %s %s)" % (_cstr(o[1]), _cstr(o[2]))
+        if k == "wr": return "(WWrite %s)" % _cstr(o[1])
+        if k == "fl": return "WFlush"
+        if k == "he": return "(WHttpError %s %s)" % (_cstr(o[1]), _cz(o[2]))
+        if k == "rd": return "(WRedirect %s %s)" % (_cstr(o[1]), _cz(o[2]))
+        return "WObs"
+    hs = c[2]
+    ops = [wop(o) for h in hs for o in h[0]] + [wop(o) for h in reversed(hs) for o in h[1]]
+    def wev(e):
+        if e[0] == "wh": return "(WH %s)" % _cz(e[1])
+        if e[0] == "w": return "(W %s)" % _cstr(e[1])
+        return "F"
+    log = _clist([wev(e) for e in m[0][1:]], "wev")
+    obs = _clist(["(%s, %s)" % (_cz(o[0]), _cz(o[1])) for o in m[1][1:]], "(Z * Z)")
+    return "c08_eqb (c08_out %s %s) (%s, %s)" % (_clist(["%s%%nat" % n for n in c[1]], "nat"), _clist(ops, "wop"), log, obs)
+
+REPLAYERS = {"C11": _replay_c11, "C14": _replay_c14, "C08": _replay_c08}
+
+def coq_replay(ctx):
+    """evaluates a sample of the run's cases inside Coq (vm_compute) and compares with the extracted model's output"""
+    pid = ctx["pid"]
+    f = REPLAYERS.get(pid)
+    if not f: return {}
+    terms = []
+    for r in ctx["results"]:
+        if r["model"].startswith("(unsupported") or r["model"].startswith("(judge-only") or r["model"].startswith("(error"): continue
+        try:
+            t = f(r["case"], r["model"])
+        except Exception:
+            t = None
+        if t: terms.append(t)
+        if len(terms) >= 300: break
+    if not terms: return {}
+    path = os.path.join(ctx["wd"], "ReplayCases.v")
+    with open(path, "w") as fo:
+        fo.write("From Rux Require Import Base Str Norm Cache Writer Replay.\nOpen Scope Z_scope.\n")
+        fo.write("Definition results : list bool := [\n  " + ";\n  ".join(terms) + "\n].\n")
+        fo.write("Definition bad := Eval vm_compute in count_false results.\nPrint bad.\n")
+    t0 = time.time()
+    rc, out = ctx["sh"](["coqc", "-Q", ctx["coq"], "Rux", "-o", os.path.join(ctx["wd"], "ReplayCases.vo"), path], timeout=1800)
+    m = re.search(r"bad\s*=\s*(\d+)", out)
+    if rc != 0 or not m:
+        return {"problem": "in-Coq replay failed: " + out[-600:]}
+    if int(m.group(1)) != 0:
+        return {"problem": "in-Coq replay: %s of %d sampled cases evaluate differently inside Coq (vm_compute) than in the extracted OCaml model" % (m.group(1), len(terms))}
+    return {"coverage": {"coq_replay": "%d sampled cases re-evaluated with vm_compute inside Coq: all equal to the extracted model's output (%.0fs)" % (len(terms), time.time() - t0)}}
